@@ -109,8 +109,22 @@ def programs(draw):
     else:
         lookup_kind = "last"
         lookup = None
+    # FrameSequence[distance] converts its argument to m itself, so any length unit and an integer
+    # variable are in its domain (whole centimetres, so that the integer holds the distance exactly)
+    if lookup is None:
+        # propagate_to accepts any length unit (the frame keeps it); a later lookup *by distance* then
+        # raises UnitError (loud, comparing cm with m), so such programs end with the index lookup
+        for op in ops:
+            if op["op"] == "propagate_to":
+                op["unit"] = draw(st.sampled_from(["m", "m", "cm", "mm"]))
+                op["int"] = draw(st.sampled_from([False, False, True]))
+    lookup_unit = draw(st.sampled_from(["m", "m", "cm", "mm"]))
+    int_lookup = lookup is not None and draw(st.sampled_from([False, False, True]))
+    if int_lookup:
+        lookup = round(lookup, 2)
     neutrons = draw(st.lists(st.tuples(unit01, unit01).map(list), min_size=40, max_size=40))
     return {
+        "lookup_unit": lookup_unit, "int_lookup": int_lookup,
         "int_pulse": draw(st.sampled_from([False, False, False, True])),
         "pulse": {"tmin": tmin, "tmax": tmin + width, "wmin": wmin, "wmax": wmin + wband},
         "t_unit": draw(st.sampled_from(sorted(T_UNITS))),
@@ -198,6 +212,11 @@ def build(case):
     return b
 
 
+def dist_m(var) -> float:
+    """A distance variable in metres through the exact factor (not scipp's integer unit conversion)."""
+    return float(var.value) * D_UNITS[str(var.unit)]
+
+
 def run_program(case, b):
     import scipp as sc
 
@@ -212,8 +231,24 @@ def run_program(case, b):
             if k + 1 < len(ops) and ops[k + 1]["op"] == "chop":
                 # unit rounding of the chopper distances must not put this frame beyond the next chopper
                 d = min(d, min(b.spec[i][0] for i in ops[k + 1]["choppers"]))
-            seq = seq.propagate_to(sc.scalar(d, unit="m"))
+            pu = op.get("unit", "m")
+            if op.get("int") and pu != "m":
+                # whole centimetres, rounded down (never beyond the next chopper)
+                v = math.floor(d * 100 + 1e-9) * (10 if pu == "mm" else 1)
+                seq = seq.propagate_to(sc.scalar(v, unit=pu, dtype="int64"))
+            else:
+                seq = seq.propagate_to(sc.scalar(d / D_UNITS[pu], unit=pu))
+                if k + 1 < len(ops) and ops[k + 1]["op"] == "chop" and pu != "m":
+                    # unit rounding again: redo in metres if the division moved the frame beyond the chopper
+                    if dist_m(seq[-1].distance) > min(b.spec[i][0] for i in ops[k + 1]["choppers"]):
+                        seq = FrameSequenceDropLast(seq).propagate_to(sc.scalar(d, unit="m"))
     return seq
+
+
+def FrameSequenceDropLast(seq):
+    from scippneutron.tof import chopper_cascade as cc
+
+    return cc.FrameSequence(list(seq.frames[:-1]))
 
 
 # ---------------------------------------------------------------- geometry helpers
@@ -333,6 +368,11 @@ def base_labels(case, seq):
     ds = [c["distance"] for c in case["choppers"]]
     if any(c.get("int_distance") for c in case["choppers"]) and case["d_unit"] != "m":
         labs.append("int-distance")
+    for op in case["ops"]:
+        if op["op"] == "propagate_to" and op.get("unit", "m") != "m":
+            labs.append("propagate-unit:" + op["unit"] + ("/int64" if op.get("int") else ""))
+    if case["lookup"] is not None:
+        labs.append("lookup-unit:" + case.get("lookup_unit", "m") + ("/int64" if case.get("int_lookup") and case.get("lookup_unit", "m") != "m" else ""))
     if len(set(ds)) < len(ds):
         labs.append("equal-distances")
     if any(d == 0.0 for d in ds):
@@ -356,9 +396,20 @@ def final_frame(case, b, seq):
 
     if case["lookup"] is None:
         fr = seq[-1]
-        return fr, float(fr.distance.to(unit="m").value)
-    dist = sc.scalar(case["lookup"], unit="m")
-    return seq[dist], float(dist.to(unit="m").value)
+        return fr, dist_m(fr.distance)
+    lu = case.get("lookup_unit", "m")
+    v = case["lookup"] / D_UNITS[lu]
+    if case.get("int_lookup") and lu != "m":
+        dist = sc.scalar(round(v), unit=lu, dtype="int64")
+    else:
+        dist = sc.scalar(v, unit=lu)
+    D = float(dist.value) * D_UNITS[lu]       # exact factor; not scipp's integer unit conversion
+    fr = seq[dist]
+    got = float(fr.distance.to(unit="m", dtype="float64").value)
+    if abs(got - D) > 1e-12 * max(abs(D), 1.0):
+        raise Violation("lookup-distance", f"FrameSequence[{dist.value!r} {lu} ({dist.dtype})] returned a frame at "
+                                           f"{got!r} m, asked for {D!r} m")
+    return fr, D
 
 
 def check_transmission(case):
@@ -463,7 +514,7 @@ def check_invariance(case):
     labs = base_labels(case, seq)
     a = alpha()
     fr = seq[-1]
-    D = float(fr.distance.to(unit="m").value)
+    D = dist_m(fr.distance)
     ts = max((b.tmax - b.tmin) + a * D * (b.wmax - b.wmin), 1e-9)
     ws = b.wmax - b.wmin
     # (a) all choppers in one call, in the listed (unsorted) order and reversed
@@ -498,7 +549,14 @@ def check_invariance(case):
             raise Violation("two-step-int", f"propagate_to({val} {unit}, int64).propagate_to({far.value} m) differs from "
                                             f"propagate_to({far.value} m)")
     # (c) lookup by distance equals manual propagation of the last frame at or before it
-    looked = seq[far]
+    try:
+        looked = seq[far]
+    except sc.UnitError:
+        # a frame left in cm/mm by propagate_to(<cm|mm>) is compared with the distance in m: refused
+        # loudly; nothing is reported, so nothing to compare
+        if all(str(f.distance.unit) == "m" for f in seq):
+            raise
+        return [*labs, "lookup-after-propagate-in-other-unit:refused"], False
     if not frames_close(looked, direct):
         raise Violation("lookup", "FrameSequence[distance] differs from propagating the last frame")
     if float(looked.distance.to(unit="m").value) != float(far.to(unit="m").value):
